@@ -44,7 +44,7 @@ func c18Alphabet() []Action {
 	return []Action{
 		cmdOn(0, "SUBSCRIBE", "c1"), cmdOn(1, "SUBSCRIBE", "c1", "c2"), cmdOn(0, "PSUBSCRIBE", "c*"), cmdOn(2, "PSUBSCRIBE", "c*", "d*"),
 		cmdOn(0, "UNSUBSCRIBE", "c1"), cmdOn(1, "UNSUBSCRIBE"), cmdOn(0, "PUNSUBSCRIBE", "c*"), cmdOn(2, "PUNSUBSCRIBE"), cmdOn(1, "UNSUBSCRIBE", "c2", "zz"),
-		cmdOn(1, "SUBSCRIBE", "c3", "c3"), cmdOn(2, "PSUBSCRIBE", "c3*", "c3*"), cmdOn(0, "PUBLISH", "c3", "m5"),
+		cmdOn(0, "SUBSCRIBE", "c1", "c2"), cmdOn(1, "SUBSCRIBE", "c3", "c3"), cmdOn(2, "PSUBSCRIBE", "c3*", "c3*"), cmdOn(0, "PUBLISH", "c3", "m5"),
 		cmdOn(2, "PUBLISH", "c1", "m1"), emb("PUBLISH", "c2", "m2"), cmdOn(0, "PUBLISH", "d", "m3"), cmdOn(1, "PUBLISH", "c1", "m4"),
 		cmdOn(2, "PUBSUB", "CHANNELS"), cmdOn(2, "PUBSUB", "NUMSUB", "c1", "c2", "d"), cmdOn(2, "PUBSUB", "NUMPAT"), cmdOn(2, "PUBSUB", "CHANNELS", "c*"),
 	}
@@ -134,7 +134,7 @@ func (t *c18Table) shape(c int) string {
 
 func (c18Check) Units(tier string, seed int64) []Unit {
 	var us []Unit
-	depth, shards := 4, 20
+	depth, shards := 4, 21
 	if tier == "thorough" {
 		depth = 5
 	}
